@@ -10,6 +10,7 @@ import (
 	"fmt"
 	"math"
 	"sort"
+	"strconv"
 	"strings"
 	"time"
 
@@ -123,10 +124,12 @@ func intValues(d unitDef, lo, hi int64) []int64 {
 }
 
 type checker struct {
-	d   unitDef
-	di  int
-	u   *schema.UnitsDefinition
-	res *ux.Result
+	intSchema   *schema.IntSchema
+	floatSchema *schema.FloatSchema
+	d           unitDef
+	di          int
+	u           *schema.UnitsDefinition
+	res         *ux.Result
 }
 
 func (c *checker) fail(kind, detail string, r replay) {
@@ -202,6 +205,9 @@ func (c *checker) checkString(s string, want int64, overflow bool, valid bool, w
 	c.guard("ParseInt("+s+")", r, func() {
 		got, err := c.u.ParseInt(s)
 		gotF, errF := c.u.ParseFloat(s)
+		// the typed entry points: an int / float schema that carries these units reads a string with them, and with
+		// nothing else
+		c.throughSchemas(s, got, err, gotF, errF, r)
 		switch {
 		case valid && !overflow:
 			if err != nil {
@@ -225,7 +231,44 @@ func (c *checker) checkString(s string, want int64, overflow bool, valid bool, w
 	})
 }
 
+// throughSchemas: IntSchema / FloatSchema with these units, given the string, must return what the units' own parser
+// returns (same verdict, same number).
+func (c *checker) throughSchemas(s string, got int64, err error, gotF float64, errF error, r replay) {
+	if c.intSchema == nil {
+		c.intSchema = schema.NewIntSchema(nil, nil, c.u)
+		c.floatSchema = schema.NewFloatSchema(nil, nil, c.u)
+	}
+	vi, ei := c.intSchema.Unserialize(s)
+	if (ei == nil) != (err == nil) || (ei == nil && vi != any(got)) {
+		c.fail("an int schema with units reads a string differently from the units' parser", fmt.Sprintf("IntSchema.Unserialize(%q) = %v, %v; ParseInt = %d, %v", s, vi, ei, got, err), r)
+	}
+	vf, ef := c.floatSchema.Unserialize(s)
+	if (ef == nil) != (errF == nil) || (ef == nil && vf != any(gotF) && !(gotF != gotF)) {
+		c.fail("a float schema with units reads a string differently from the units' parser", fmt.Sprintf("FloatSchema.Unserialize(%q) = %v, %v; ParseFloat = %v, %v", s, vf, ef, gotF, errF), r)
+	}
+}
+
+// bareDigitStrings: no unit name at all. What number (if any) such a string denotes is left open here, but the int
+// schema and the units' parser must not disagree about it, and a decimal digit string is never read in another base.
+func (c *checker) bareDigitStrings() {
+	for _, s := range []string{"7", "010", "017", "0x10", "0b101", "0o17", "1_000", "00"} {
+		c.res.Evaluations++
+		r := replay{Op: "parse", Str: s}
+		c.guard("bare "+s, r, func() {
+			got, err := c.u.ParseInt(s)
+			gotF, errF := c.u.ParseFloat(s)
+			c.throughSchemas(s, got, err, gotF, errF, r)
+			if err == nil {
+				if want, perr := strconv.ParseInt(s, 10, 64); perr == nil && want != got {
+					c.fail("ParseInt returns a wrong number", fmt.Sprintf("ParseInt(%q) = %d; the decimal digits say %d", s, got, want), r)
+				}
+			}
+		})
+	}
+}
+
 func (c *checker) strings() {
+	c.bareDigitStrings()
 	d := c.d
 	ms := append(d.sortedMults(), 1)
 	names := func(m int64) [4]string {
@@ -512,7 +555,7 @@ func main() {
 			}
 			return res.Findings
 		},
-		Rule: "5 built-in unit sets + 18 generated definitions (multipliers over {2,10,60,1000}; names that are prefixes of each other; names with regexp metacharacters; names with a space inside) x {every integer in [0,200000] (generated definitions: [0,20000] in the quick tier), powers of ten +-1 up to 10^18, multiplier boundaries, 2^63-1; floats k/8 for k<=4000 and k*10^e; every well-formed string of 1-3 strictly descending components with counts from {0,1,9,10,59,60,61,100} in 4 name/spacing variants; 14 near misses incl. 64-bit overflow}; every case distinct. First use: for every definition, every pair over {ParseInt, FormatShortInt, FormatLongInt, ParseFloat} issued by two threads on one fresh definition under the cooperative scheduler (sync shim + access events on schema/), all schedules with <= 2 preemptions: vector-clock race scan and results equal to a single caller's",
+		Rule: "5 built-in unit sets + 18 generated definitions (multipliers over {2,10,60,1000}; names that are prefixes of each other; names with regexp metacharacters; names with a space inside) x {every integer in [0,200000] (generated definitions: [0,20000] in the quick tier), powers of ten +-1 up to 10^18, multiplier boundaries, 2^63-1; floats k/8 for k<=4000 and k*10^e; every well-formed string of 1-3 strictly descending components with counts from {0,1,9,10,59,60,61,100} in 4 name/spacing variants; 14 near misses incl. 64-bit overflow; every string also through IntSchema / FloatSchema carrying the units (must agree with the units' parser); bare digit strings with leading zeros, base prefixes and separators}; every case distinct. First use: for every definition, every pair over {ParseInt, FormatShortInt, FormatLongInt, ParseFloat} issued by two threads on one fresh definition under the cooperative scheduler (sync shim + access events on schema/), all schedules with <= 2 preemptions: vector-clock race scan and results equal to a single caller's",
 		Assumptions: []string{
 			"ambiguous inputs are outside the alphabet: bare numbers without a unit name, decimal counts, negative quantities",
 			"float tolerance 1e-6 absolute + 1e-9 relative (the formatter prints 6 decimals)",
